@@ -198,3 +198,50 @@ def convert_fresh(ipath, opath, argv=(), hashseed='0', timeout=300):
         res.exc_msg = tail[-1] if tail else ''
         res.exc_type = res.exc_msg.split(':')[0] if res.exc_msg else 'exit'
     return res
+
+
+def convert_path(ipath, opath, argv=()):
+    """In-process conversion of an existing input file (used by C18, which
+    watches the input file and its directory)."""
+    mods = load_repo()
+    t4main = mods['main']
+    res = Result()
+    buf = io.StringIO()
+    old_argv = sys.argv
+    try:
+        full_argv = list(argv) + [ipath, '-o', opath]
+        sys.argv = ['t4_geom_convert'] + full_argv
+        with warnings.catch_warnings(record=True):
+            warnings.simplefilter('always')
+            with contextlib.redirect_stdout(buf), \
+                    contextlib.redirect_stderr(io.StringIO()):
+                try:
+                    t4main.conversion(t4main.parse_args(full_argv))
+                    res.ok = True
+                except SystemExit as exc:
+                    res.exc_type, res.exc_msg = 'SystemExit', str(exc.code)
+                except Exception as exc:
+                    res.exc_type = type(exc).__name__
+                    res.exc_msg = str(exc)
+                    fr = _repo_frame(exc.__traceback__)
+                    res.frame = fr[-1] if fr else '?'
+    finally:
+        sys.argv = old_argv
+    res.stdout = buf.getvalue()
+    if res.ok and os.path.exists(opath):
+        with open(opath, 'r', encoding='utf-8') as f:
+            res.raw_text = f.read()
+        res.t4_text = strip_header(res.raw_text)
+    return res
+
+
+def reload_repo():
+    """Forget the imported converter so that the next load_repo() starts from
+    freshly imported modules (a case then is a pure function of its own
+    history)."""
+    for name in list(sys.modules):
+        if name == 'MIP' or name.startswith('MIP.') or \
+                name == 't4_geom_convert' or \
+                name.startswith('t4_geom_convert.'):
+            del sys.modules[name]
+    _loaded.clear()
